@@ -16,6 +16,7 @@ Decides (static, on the resolved program):
     "targets.lst" is only named in functions that hold a guard.
 """
 import os, re, subprocess
+import re
 from common import *
 from cfg import *
 
@@ -168,6 +169,11 @@ def check_functions(rep, funcs, control=False):
                     fail("GUARD-NOT-AUTOMATIC@%s" % caller,
                          "%s: MFrontLockGuard constructed other than as an automatic local variable "
                          "(temporary/static/heap guards release at the wrong time)" % f.short_loc(sid))
+            if n["k"] == "CallExpr" and re.search(r"^std::make_(unique|shared)<mfront::MFrontLockGuard", n.get("calleeDisplay") or n.get("callee") or ""):
+                guard_ctor_sites += 1
+                fail("GUARD-NOT-AUTOMATIC@%s#%s" % (caller, (n.get("callee") or "").split("<")[0]),
+                     "%s: the guard is created on the heap (%s): it can be released before the end of the scope it is meant to protect - the "
+                     "writes that follow are made outside the inter-process lock" % (f.short_loc(sid), (n.get("callee") or "").split("<")[0]))
             if n["k"] == "CXXNewExpr" and "MFrontLockGuard" in n.get("allocType", ""):
                 fail("GUARD-NOT-AUTOMATIC@%s#new" % caller, "%s: heap-allocated guard" % f.short_loc(sid))
         names_registry = any(n["k"] == "StringLiteral" and "targets.lst" in str(n.get("value"))
